@@ -2,6 +2,10 @@
 (* Model-checking instance of VenueRisk.tla (constants that a .cfg cannot express). *)
 EXTENDS VenueRisk
 NoTuplesV == {}
+ASSUME TLCSet(1, 1)
+InitSimV == /\ st = InitState /\ acc = C02AccNext(C02Acc0, InitState, [ev |-> "reset"], InitState)
+            /\ acc7 = C07Acc0 /\ sid = 0 /\ depth = 0
+SpecSimV == InitSimV /\ [][NextV]_vars
 \* feeds at exponent -6: OU prices the Kamino / Solend underlying ($1), OV the Drift underlying ($150); exponent -8: OD the debt ($1)
 OVV == {<<"OU", 1000000, 2000, 990000, 1500>>,
         <<"OU", 700000, 0, 700000, 0>>,
